@@ -7,6 +7,7 @@ import (
 	"fmt"
 	"io"
 
+	"verif/envio"
 	"verif/gen"
 	"verif/mc"
 	"verif/obs"
@@ -59,6 +60,18 @@ func (d decodeResult) errString() string {
 // runDecode calls f on a fresh in-memory reader.
 func runDecode(f func(r io.ReadSeeker) (exif2.Exif, error), b []byte) (d decodeResult) {
 	d.Panic = mc.Guard(func() { d.Exif, d.Err = f(bytes.NewReader(b)) })
+	return
+}
+
+// runDecodeChunked calls f on a reader that delivers at most k bytes per Read (k = 0: as much as asked).
+func runDecodeChunked(f func(r io.ReadSeeker) (exif2.Exif, error), b []byte, k int) (d decodeResult) {
+	if k == 0 {
+		return runDecode(f, b)
+	}
+	rd := envio.New(b)
+	rd.Policy = envio.Policy{MaxChunk: k}
+	rd.Budget = 1 << 40
+	d.Panic = mc.Guard(func() { d.Exif, d.Err = f(rd) })
 	return
 }
 
